@@ -99,6 +99,11 @@ where
     if ctx.order_anomaly_reported.get() {
         return;
     }
+    // C15 quantifies over histories with quarantines and restarts, not over injected I/O failures
+    // or cancellations (a blob file left behind by a failed creation exists without being attached)
+    if matches!(phase, "fault" | "cancel") {
+        return;
+    }
     world.set_query_phase(true);
     let snap = tagged(&world, tag, counters_snapshot(storage)).await;
     world.set_query_phase(false);
